@@ -347,10 +347,11 @@ Definition h_bankruptcy (w : hworld) (a b : nat) : res hworld :=
 
 (* lending_account_liquidate (classic liquidation) *)
 Definition h_liquidate (w : hworld) (liqor liqee ab lb : nat) (amount : Z) : res hworld :=
+  let* ha := nth_bank w ab in let* hl := nth_bank w lb in
+  (* account constraint on the liability bank: evaluated by Anchor before the handler body *)
+  let* _ := check (is_marginfi_tag (b_asset_tag (hb_b hl))) (E E_WrongAssetTagForStandardInstructions) in
   let* _ := check (0 <? amount) (E E_ZeroLiquidationAmount) in
   let* _ := check (negb (Nat.eqb ab lb)) (E E_SameAssetAndLiabilityBanks) in
-  let* ha := nth_bank w ab in let* hl := nth_bank w lb in
-  let* _ := check (is_marginfi_tag (b_asset_tag (hb_b hl))) (E E_WrongAssetTagForStandardInstructions) in
   let* ee := nth_acct w liqee in let* er := nth_acct w liqor in
   let* _ := check (negb (aflag er ACCOUNT_IN_RECEIVERSHIP) && negb (aflag ee ACCOUNT_IN_RECEIVERSHIP)) (E E_ForbiddenIx) in
   let* _ := validate_bank_asset_tags (hb_b ha) (hb_b hl) in
